@@ -358,6 +358,61 @@ def runtime_checks():
                             grad_before=[g.reshape(-1).tolist() for g in g1], grad_after=[g.detach().reshape(-1).tolist() for g in g2]))
     except Exception as e:
         bad.append(dict(case='field tensor modified in place between two queries', error=f'{type(e).__name__}: {e}'))
+    # components / partial derivatives that are ONE tensor object (plane waves: autograd hands the same gradient tensor to every summand
+    # of x + y + z; vector fields with equal components): every term of the sums still counts, each against its own coordinate
+    try:
+        x, y, z = col(0.3, -1.2, 2.0), col(1.1, 0.4, -0.7), col(-0.5, 0.9, 1.6)
+        close = lambda a, b: torch.allclose(a.detach(), b.detach(), rtol=1e-12, atol=1e-12)
+        s3, s2 = x + y + z, x + y
+        obs = [('laplacian(sin(x+y+z))', ops.laplacian(torch.sin(s3), x, y, z), -3 * torch.sin(s3)),
+               ('laplacian(exp(x+y)) in 2-D', ops.laplacian(torch.exp(s2), x, y), 2 * torch.exp(s2)),
+               ('laplacian(laplacian(sin(x+y+z)))', ops.laplacian(ops.laplacian(torch.sin(s3), x, y, z), x, y, z), 9 * torch.sin(s3)),
+               ('div(grad(sin(x+y+z)))', ops.div(*ops.grad(torch.sin(s3), x, y, z), x, y, z), -3 * torch.sin(s3))]
+        f = torch.sin(x * y) + z ** 2 * x
+        h = x * y * z
+        fx, fy, fz = y * torch.cos(x * y) + z ** 2, x * torch.cos(x * y), 2 * z * x
+        hx, hy, hz = y * z, x * z, x * y
+        obs += [('div(f, f, f)', ops.div(f, f, f, x, y, z), fx + fy + fz),
+                ('div(f, h, f)', ops.div(f, h, f, x, y, z), fx + hy + fz),
+                ('div(f, f) in 2-D', ops.div(f, f, x, y), fx + fy)]
+        for nm, comps, want in (('curl(f, f, h)', (f, f, h), (hy - fz, fz - hx, fx - fy)),
+                                ('curl(f, h, f)', (f, h, f), (fy - hz, fz - fx, hx - fy)),
+                                ('curl(h, f, f)', (h, f, f), (fy - fz, hz - fx, fx - hy)),
+                                ('curl(f, f, f)', (f, f, f), (fy - fz, fz - fx, fx - fy))):
+            got = ops.curl(*comps, x, y, z)
+            obs += [(f'{nm}[{i}]', g, w) for i, (g, w) in enumerate(zip(got, want))]
+        vl = ops.vector_laplacian(torch.sin(s3), torch.sin(s3), torch.cos(s3), x, y, z)
+        obs += [('vector_laplacian(sin s, sin s, cos s)[0]', vl[0], -3 * torch.sin(s3)), ('vector_laplacian(sin s, sin s, cos s)[2]', vl[2], -3 * torch.cos(s3))]
+        for nm, got, want in obs:
+            if not close(got, want):
+                bad.append(dict(case='components or partial derivatives that are the same tensor object', violated=nm,
+                                got=got.detach().reshape(-1).tolist(), want=want.detach().reshape(-1).tolist()))
+    except Exception as e:
+        bad.append(dict(case='components or partial derivatives that are the same tensor object', error=f'{type(e).__name__}: {e}'))
+    # a field whose graph is gone (released by an earlier backward, or detached): the operators raise - or answer correctly - but
+    # never hand back numbers that are not the derivatives
+    for what in ('graph released by backward()', 'detached field'):
+        try:
+            x, y = col(0.3, -1.2, 2.0), col(1.1, 0.4, -0.7)
+            u = x ** 2 * torch.sin(y)
+            if what.startswith('graph'):
+                u.sum().backward()
+            else:
+                u = u.detach()
+            want = [2 * x * torch.sin(y), x ** 2 * torch.cos(y)]
+            for opn, call, w in (('grad', lambda: ops.grad(u, x, y), want),
+                                 ('laplacian', lambda: [ops.laplacian(u, x, y)], [2 * torch.sin(y) - x ** 2 * torch.sin(y)]),
+                                 ('div', lambda: [ops.div(u, u * 1.0, x, y)], [want[0] + want[1]])):
+                try:
+                    got = call()
+                except RuntimeError:
+                    continue        # an error is an honest answer
+                if any(not torch.allclose(g.detach(), ww.detach(), rtol=1e-12, atol=1e-12) for g, ww in zip(got, w)):
+                    bad.append(dict(case=f'field without a usable graph ({what})', violated=f'{opn} returned values that are not the derivatives '
+                                    '(instead of raising)', got=[g.detach().reshape(-1).tolist() for g in got],
+                                    want=[ww.detach().reshape(-1).tolist() for ww in w]))
+        except Exception as e:
+            bad.append(dict(case=f'field without a usable graph ({what})', error=f'{type(e).__name__}: {e}'))
     # grad mode: same values inside torch.no_grad()
     try:
         x, y, z = col(0.3, -1.2, 2.0), col(1.1, 0.4, -0.7), col(-0.5, 0.9, 1.6)
